@@ -178,7 +178,31 @@ def mon_c09(sc, prof, pairs):
     return out
 
 
-MONITORS = {"C09": mon_c09, "C04": mon_c04, "C01": mon_c01, "C02": mon_c02, "C03": mon_c03, "C08": mon_c08}
+def mon_c12(sc, prof, pairs):
+    """capacity() never panics, returns c >= len, the promised pushes move no field array;
+    reserving / shrinking never change the contents"""
+    out = []
+    for i, s in pairs:
+        if i["step"] == "end": continue
+        line = sc.lines[int(i["step"])]
+        w = line.split()
+        op = w[0]
+        if op == "capacity" and i["status"] != "ok":
+            out.append(Failure(sc, prof, i["step"], f"capacity() panicked", "C12:capacity:panic", {"I": i["raw"]}))
+        if op == "promise":
+            if i["status"] != "ok":
+                out.append(Failure(sc, prof, i["step"], f"{line}: panicked (capacity() or push)", "C12:promise:panic", {"I": i["raw"]}))
+            elif i.get("cap_ge_len") != "true":
+                out.append(Failure(sc, prof, i["step"], f"{line}: capacity() < len()", "C12:promise:cap_lt_len", {"I": i["raw"]}))
+            elif i.get("moved") != "false":
+                kind = "reserved" if len(w) > 2 else "capacity"
+                out.append(Failure(sc, prof, i["step"], f"{line}: a field array moved during the promised pushes ({i.get('pushed')} pushed)", f"C12:promise:moved:{kind}", {"I": i["raw"]}))
+        if op in ("reserve", "reserve_exact", "shrink_to_fit") and (i["status"] != s["status"] or i.get("regs") != s.get("regs")):
+            out.append(Failure(sc, prof, i["step"], f"{line}: contents changed: {i.get('regs')} vs {s.get('regs')}", f"C12:{op}:contents", {"I": i["raw"], "S": s["raw"]}))
+    return out
+
+
+MONITORS = {"C12": mon_c12, "C09": mon_c09, "C04": mon_c04, "C01": mon_c01, "C02": mon_c02, "C03": mon_c03, "C08": mon_c08}
 
 
 def _meta_clonefuse(self, step):
